@@ -17,7 +17,7 @@ RULE = ("twin worlds from the same pre-state: world A evaluates call_batch(kwarg
 ASSUMPTIONS = ["exceptions are compared by class and original message", "stores are compared as sets of (qualified name, argument hash, result type, value, invocation list)"]
 COMPONENTS = {"real": ["call_batch / map_over_range, LocalRunnerBackend.batch_run, runner, storage backends", "fork lifetimes"],
               "stub": ["generated program", "uuid4, clock"]}
-REACH = ["with_sibling_partials_derived_from_the_prefix", "element_wise_world_calls_root_directly", "under_context_arguments", "with_read_fault", "with_transient_failures", "one_shot_iterable_range", "with_warm_elements", "batches", "map_over_range", "raise_first", "with_failing_element", "with_duplicates", "with_prememoized", "empty_batches",
+REACH = ["through_ignore_result_clone", "with_sibling_partials_derived_from_the_prefix", "element_wise_world_calls_root_directly", "under_context_arguments", "with_read_fault", "with_transient_failures", "one_shot_iterable_range", "with_warm_elements", "batches", "map_over_range", "raise_first", "with_failing_element", "with_duplicates", "with_prememoized", "empty_batches",
          "partial_prefix", "restart_before_batch"]
 
 
@@ -57,7 +57,10 @@ def gen_case(seed):
         sweep = [rng.randrange(1, 5) for _ in range(rng.randrange(0, 4))]
         sib_use = rng.random() < 0.5
         b_direct = rng.random() < 0.6
-    return {"seed": seed, "sweep": sweep, "sib_use": sib_use, "b_direct": b_direct, "prog": prog, "xs": xs, "via": via, "shape": shape, "read_fault_x": rfx, "ctx": ctx,
+    ign = rng.random() < 0.2      # the batch (and the single calls) go through an ignore_result clone
+    if ign and rng.random() < 0.6:
+        pre = sorted(set(xs))     # a warm-up batch over calls that are all memoized already (some of them as failures)
+    return {"seed": seed, "sweep": sweep, "sib_use": sib_use, "b_direct": b_direct, "ign": ign, "prog": prog, "xs": xs, "via": via, "shape": shape, "read_fault_x": rfx, "ctx": ctx,
             "pre_via": rng.choice(["same", "same", "plain"]), "raise_first": rng.random() < 0.5, "pre": pre, "warm": warm,
             "cache": rng.random() < 0.6, "restart": rng.random() < 0.5, "backend": rng.choice(["fs", "fs", "memory"])}
 
@@ -138,6 +141,9 @@ def run_world(root, case, world_name):
                     ah = f.fn_reference().with_args(x=rfx, **kw).arg_hash
                     simfs.arm(world.store_roots(root, False))
                     simfs.set_read_plan(rules=[{"match": ah + ".memento", "nth": 1}])
+                f_all = f
+                if case.get("ign"):
+                    f = f.ignore_result()
                 if world_name == "A":
                     try:
                         if case["via"] == "map_over_range":
@@ -222,6 +228,8 @@ def execute(case):
         stats["partial_prefix"] = 1
     if case["restart"] and case["backend"] != "memory":
         stats["restart_before_batch"] = 1
+    if case.get("ign"):
+        stats["through_ignore_result_clone"] = 1
     if case.get("sweep"):
         stats["with_sibling_partials_derived_from_the_prefix"] = 1
     if case.get("b_direct"):
